@@ -72,7 +72,7 @@ def make_dirs(tmp, n):
 
 
 class Sim:
-    def __init__(self, st):
+    def __init__(self, st, env=None):
         from vlib.world import World
         from aioslsk.network.network import ListeningConnectionErrorMode
         import aioslsk.events as E
@@ -84,12 +84,20 @@ class Sim:
         self.w = w
         s = w.settings
         s.network.listening.error_mode = ListeningConnectionErrorMode.ANY
-        s.users.friends = set(st['friends'])
-        s.interests.liked = set(st['liked'])
-        s.interests.hated = set(st['hated'])
-        s.rooms.favorites = set(st['favorites'])
-        s.rooms.auto_join = st['auto_join']
-        s.rooms.private_room_invites = st['invites']
+        self.env = env
+        if env == 'replaced':
+            # the settings sub-objects are replaced as a whole (as an application that reloads its configuration does)
+            from aioslsk.settings import RoomsSettings, UsersSettings, InterestsSettings
+            s.users = UsersSettings(friends=set(st['friends']))
+            s.interests = InterestsSettings(liked=set(st['liked']), hated=set(st['hated']))
+            s.rooms = RoomsSettings(auto_join=st['auto_join'], private_room_invites=st['invites'], favorites=set(st['favorites']))
+        else:
+            s.users.friends = set(st['friends'])
+            s.interests.liked = set(st['liked'])
+            s.interests.hated = set(st['hated'])
+            s.rooms.favorites = set(st['favorites'])
+            s.rooms.auto_join = st['auto_join']
+            s.rooms.private_room_invites = st['invites']
         w.peer_connect = lambda h, p: 'hang'
         self.attempts = 0          # connect attempts to the server (counted when they start)
         self.slow_mode = False
@@ -113,6 +121,21 @@ class Sim:
         self._l2 = self._on_dest
         self.c.events.register(E.SessionInitializedEvent, self._l1)
         self.c.events.register(E.SessionDestroyedEvent, self._l2)
+        # helper-exercising environments: application listeners that raise / suspend, in front of the library's own listeners
+        self._extra = []
+        if env == 'raising':
+            def bad_listener(e):
+                raise RuntimeError('listener failed')
+            self._extra.append(bad_listener)
+        elif env == 'suspending':
+            async def slow_listener(e):
+                await asyncio.sleep(0)
+                await asyncio.sleep(0)
+            self._extra.append(slow_listener)
+        for fn in self._extra:
+            for ev in (E.SessionInitializedEvent, E.SessionDestroyedEvent, E.ConnectionStateChangedEvent, E.ServerReconnectedEvent):
+                self.c.events.register(ev, fn, priority=10)
+        self.late = None
         self.frames_seen = {}       # endpoint index -> number of frames already accounted for
         self.last_burst = None
         self.bursts = []
@@ -123,6 +146,19 @@ class Sim:
 
     def _on_init(self, e):
         self.inits += 1
+        if self.env == 'late' and self.late is None:
+            # a listener registered after the first login must see every later session event
+            import aioslsk.events as E
+            self.late = {'inits': 0, 'dests': 0, 'base': (self.inits, self.dests)}
+
+            def li(e):
+                self.late['inits'] += 1
+
+            def ld(e):
+                self.late['dests'] += 1
+            self._extra += [li, ld]
+            self.c.events.register(E.SessionInitializedEvent, li)
+            self.c.events.register(E.SessionDestroyedEvent, ld)
 
     def _on_dest(self, e):
         self.dests += 1
@@ -465,7 +501,7 @@ def burst_order(st):
 
 def run_scenario(sc):
     """-> list of per-step records {step, state, outs}, plus burst and stop info."""
-    sim = Sim(sc['settings'])
+    sim = Sim(sc['settings'], sc.get('env'))
     recs = []
     try:
         for step in sc['steps']:
@@ -473,8 +509,11 @@ def run_scenario(sc):
             recs.append({'step': step, 'state': sim.stop_state if step[0] == 'stop' else sim.state(), 'outs': outs})
             if step[0] == 'stop':
                 break
+        late_ok = True
+        if sim.late is not None:
+            late_ok = (sim.late['inits'] == sim.inits - sim.late['base'][0] and sim.late['dests'] == sim.dests - sim.late['base'][1])
         return {'recs': recs, 'burst': sim.last_burst, 'bursts': sim.bursts, 'burst_parents': sim.burst_parents,
-                'shares': sim.share_counts, 'stop': sim.stop_info}
+                'shares': sim.share_counts, 'stop': sim.stop_info, 'late_ok': late_ok}
     finally:
         sim.close()
 
@@ -538,6 +577,9 @@ def monitor(sc, res):
     st = sc['settings']
     viol = []
     recs = res['recs']
+    if not res.get('late_ok', True):
+        viol.append(('late-listener-misses-session-events', 'a listener registered after the first login did not receive every later '
+                     'SessionInitialized / SessionDestroyed event', {}))
     # --- burst
     for burst, par in zip(res['bursts'], res['burst_parents']):
         got = canon_burst(burst)
@@ -960,7 +1002,7 @@ def run(run: Run):
     run.trusted += ['virtual-time loop and fake transports (vlib): real sockets, UPnP and thread executors are not exercised',
                     'listening error_mode=ANY so that 0..2 ports can be configured; shares counts are computed from the files the harness creates']
     run.assumptions += ['the server accepts or refuses connects atomically; write errors surface from drain()']
-    run.prove(['tr_session'])
+    proved = run.prove(['tr_session'])
 
     import sys
     sys.unraisablehook = lambda *a: None     # coroutines of a deliberately wedged client are dropped with the loop
@@ -1011,6 +1053,19 @@ def run(run: Run):
         explore(run, {'settings': st, 'steps': pre + [['connect_done', True], ['login', 'ok'], ['command'], ['stop']]}, cases, 'attempt-in-flight')
         explore(run, {'settings': st, 'steps': pre + [['connect_done', False], ['tick', True], ['login', 'ok'], ['stop']]}, cases, 'attempt-in-flight')
         explore(run, {'settings': st, 'steps': [['start', True], ['login', 'ok'], ['parents'], ['lost', reason], ['tickslow'], ['stop']]}, cases, 'attempt-in-flight')
+    # helper-exercising environments: raising / suspending application listeners in front of the library's own, a listener
+    # registered late, settings sub-objects replaced as a whole
+    for env in ('raising', 'suspending', 'late', 'replaced'):
+        st = dict(base, reconnect=True, favorites=['roomA'], friends=['f1', 'f2'])
+        explore(run, {'settings': st, 'env': env, 'steps': [['start', True], ['login', 'ok'], ['dist'], ['lost', 'READ_ERROR'], ['command'],
+                                                             ['tick', True], ['login', 'ok'], ['command'], ['stop']]}, cases, 'env:' + env)
+        explore(run, {'settings': st, 'env': env, 'steps': [['start', True], ['login', 'ok'], ['parents'], ['lost_tracking', 'WRITE_ERROR'],
+                                                             ['tick', False], ['stop']]}, cases, 'env:' + env)
+        if run.tier != 'quick' or not proved:
+            for reason in REASONS:
+                explore(run, {'settings': dict(st, reconnect=False), 'env': env,
+                              'steps': [['start', True], ['login', 'ok'], ['dist'], ['lost', reason], ['command'], ['stop']]}, cases, 'env:' + env)
+            explore(run, {'settings': st, 'env': env, 'steps': [['start', True], ['login', 'rejected'], ['login', 'ok'], ['stop']]}, cases, 'env:' + env)
     # a distributed parent is connected when the client logs in again (after a loss, manually or by the watchdog)
     for rec in (True, False):
         st = dict(base, reconnect=rec)
